@@ -47,6 +47,7 @@ COUNTED = ("struct array_s *", "struct mapping_s *", "struct object_s *", "struc
 
 def check(run, prog, tier):
     run.rule("C06-a", "release functions free every owning field of their record on every path (bypass only through the field's own NULL test); every pointer field of an owner record is classified", 14)
+    run.rule("C06-c", "when a counted field is re-pointed (old = X->F; X->F = new; release(old)) the reference on the new value is taken before the old one is released", 1)
     run.rule("C06-b", "every increment of a reference counter narrower than 32 bits is guarded by a test of the same counter (saturation)", 8)
 
     recs = prog.records()
@@ -136,6 +137,43 @@ def check(run, prog, tier):
         node = any(True for _ in dm.calls("free_node"))
         run.ob("C06-a", "elements:dealloc_mapping", both and node, "dealloc_mapping releases key, value and node for every entry: %s/%s" % (both, node), dm.file, dm.line, "dealloc_mapping",
                what="dealloc_mapping does not release key and value of every node")
+
+    # ---- C06-c: re-pointing a counted field: take the new reference before dropping the old one
+    ACQ = {"free_prog": ("reference_prog",), "free_object": ("add_ref",), "free_array": (), "free_mapping": ()}
+    nrep = 0
+    for f in prog.functions():
+        for b, i, n in f.nodes():
+            if not (n.get("k") == "Call" and n.get("fn") in ACQ and n.get("args")):
+                continue
+            old = strip(n["args"][0])
+            if not (old.get("k") == "Ref" and old.get("d") == "local"):
+                continue
+            # old = X->F ; X->F = NEW ; release(old)
+            src = None
+            for b2, i2, n2 in f.nodes():
+                if n2.get("k") == "Asg" and n2.get("op") == "=" and strip(n2["L"]).get("id") == old.get("id") and strip(n2["R"]).get("k") == "Mem" and f.point_dominates((b2.id, i2), (b.id, i)):
+                    src = strip(n2["R"])
+            if src is None:
+                continue
+            newv = None
+            for b2, i2, n2 in f.nodes():
+                if n2.get("k") == "Asg" and n2.get("op") == "=" and show(strip(n2["L"])) == show(src) and f.point_dominates((b2.id, i2), (b.id, i)):
+                    newv = strip(n2["R"])
+            if newv is None:
+                continue
+            nrep += 1
+            run.saw(f)
+            acq = []
+            for b2, i2, n2 in f.nodes(skip_cf=False):
+                if n2.get("k") == "Un" and n2.get("op") == "++" and strip(n2["e"]).get("f") in ("ref",) and show(strip(strip(n2["e"])["b"])) == show(newv):
+                    acq.append((b2.id, i2))
+                if n2.get("k") == "Call" and n2.get("fn") in ACQ[n["fn"]] and n2.get("args") and show(strip(n2["args"][0])) == show(newv):
+                    acq.append((b2.id, i2))
+            if not acq:
+                continue  # ownership transferred some other way (not this pattern)
+            ok = any(f.point_dominates(a, (b.id, i)) for a in acq)
+            run.ob("C06-c", "repoint:%s:%s" % (f.name, show(src)), ok, "%s re-points %s to %s: the new reference is taken %s %s(%s)" % (f.name, show(src), show(newv), "before" if ok else "AFTER", n["fn"], show(old)),
+                   f.file, n.get("l"), f.name, what="%s releases the old %s before it holds a reference on the new one (which may be kept alive only through the old one): the value is freed while the object still points at it" % (f.name, show(src)))
 
     # ---- C06-b
     narrow = {}
